@@ -5,7 +5,7 @@ Require Import List Arith Bool NArith ZArith String.
 Import ListNotations.
 Require Import Base.Bytes.
 Require Import Conc.TwoPLDefs Conc.TwoPL Conc.LockModel Conc.Skel Conc.SkelSem Conc.SkelSound
-               Conc.GroundBridge Conc.Corollaries Conc.Chain Conc.Alias.
+               Conc.GroundBridge Conc.Corollaries Conc.Chain Conc.Alias Conc.KeysScan.
 
 (* Two-phase locking => serializable, for any number of transactions and any interleaving that
    respects reader-writer exclusion: the final store and everything every transaction read
@@ -167,6 +167,21 @@ Theorem C05_count_plain_increment_refuted : forall c : Z,
   let st := crun [false; true; false; true] (cinit c) in finished st /\ count st = (c + 1)%Z.
 Proof. exact lost_update_possible. Qed.
 Print Assumptions C05_count_plain_increment_refuted.
+
+(* KEYS walks the shards one after the other while others insert and delete: whatever the
+   interleaving (any sequence of states, any snapshot instants), a key present in its shard at every
+   instant is in the reply, and everything in the reply was stored at an instant the scan looked at *)
+Theorem C05_keys_contains_stable :
+  forall (key : Type) (nshards : nat) (shard_of : key -> nat), (forall k, shard_of k < nshards) ->
+  forall (st : nat -> nat -> list key) (ts : nat -> nat) (k : key),
+    (forall t, In k (st t (shard_of k))) -> In k (scan key nshards st ts).
+Proof. exact keys_contains_stable. Qed.
+Print Assumptions C05_keys_contains_stable.
+Theorem C05_keys_only_present :
+  forall (key : Type) (nshards : nat) (st : nat -> nat -> list key) (ts : nat -> nat) (k : key),
+    In k (scan key nshards st ts) -> exists j, j < nshards /\ In k (st (ts j) j).
+Proof. exact keys_only_present. Qed.
+Print Assumptions C05_keys_only_present.
 
 (* ---- the hypotheses are satisfiable / the checkers are not vacuous ---- *)
 Example C05_ex_wl :
